@@ -410,6 +410,69 @@ def option_handed_down_rule(index, rep, rid, modules):
     return n
 
 
+# (caller, callee, option) triples where an own method that has the option is called without it ON PURPOSE - each one read and confirmed
+OPTION_NOT_FORWARDED_OK = {
+    ("Tree.reseed_at", "suppress_unifurcations", "update_bipartitions"): "the caller re-encodes once, after all restructuring",
+    ("Tree.to_outgroup_position", "suppress_unifurcations", "update_bipartitions"): "the caller re-encodes once, after all restructuring",
+    ("Tree.prune_subtree", "suppress_unifurcations", "update_bipartitions"): "the caller re-encodes once, after all restructuring",
+    ("Tree.filter_leaf_nodes", "suppress_unifurcations", "update_bipartitions"): "the caller re-encodes once, after all restructuring",
+    ("Tree.prune_leaves_without_taxa", "suppress_unifurcations", "update_bipartitions"): "the caller re-encodes once, after all restructuring",
+    ("Tree.prune_nodes", "suppress_unifurcations", "update_bipartitions"): "the caller re-encodes once, after all restructuring",
+    ("Tree.filter_leaf_nodes", "leaf_node_iter", "filter_fn"): "the predicate decides what to REMOVE; the walk visits every leaf",
+    ("Node.ageorder_iter", "preorder_iter", "filter_fn"): "the filter is applied after sorting by age",
+    ("Bipartition.compile_split_bitmask", "compile_leafset_bitmask", "tree_leafset_bitmask"): "the tree leaf set was compiled by the statement before",
+    ("TreeProfile.__init__", "compile", "tree_phylogenetic_distance_matrix"): "compile() builds the matrices it is not given",
+    ("TreeProfile.__init__", "compile", "tree_node_distance_matrix"): "compile() builds the matrices it is not given",
+    ("CharacterDataSequence.set_at", "append", "character_type"): "padding cells carry no type or annotations",
+    ("CharacterDataSequence.set_at", "append", "character_annotations"): "padding cells carry no type or annotations",
+    ("Tree.resolve_node_ages", "resolve_node_depths", "node_callback_fn"): "the callback is applied to the ages afterwards",
+    ("FragmentedPopulations.generate_sequences", "generate_pop_tree", "samples_per_pop"): "the population tree is built with the object's own setting",
+    ("FragmentedPopulations.generate_gene_tree", "generate_pop_tree", "samples_per_pop"): "the population tree is built with the object's own setting",
+}
+
+
+def option_handed_on_rule(index, rep, rid, modules):
+    """An option is handed on to one's own: a method (or classmethod) that has the parameter `opt` and calls another
+    method of its own object - or builds an object of its own class through cls(...) / self.__class__(...) - whose
+    signature has `opt` too, passes it. 294 of the 308 such calls in the repository do; the 14 that do not were read one
+    by one and are listed, with the reason, in OPTION_NOT_FORWARDED_OK."""
+    n = 0
+    for m in modules:
+        for f in index.functions_in_module(m):
+            if f.cls is None:
+                continue
+            own = [p_ for p_ in f.params if p_ not in ("self", "cls")]
+            if not own:
+                continue
+            for c in calls_in(f.node):
+                if any(kw.arg is None for kw in c.keywords) or any(isinstance(a, ast.Starred) for a in c.args):
+                    continue
+                k = None
+                if (isinstance(c.func, ast.Name) and c.func.id == "cls") or norm(c.func) in ("self.__class__", "type(self)"):
+                    for b in index.mro(f.cls):
+                        if "__init__" in b.methods:
+                            k = b.methods["__init__"]
+                            break
+                elif isinstance(c.func, ast.Attribute) and norm(c.func.value) in ("self", "cls"):
+                    grade, cands = index.resolve_call(c, f)
+                    cs = [x for x in cands if hasattr(x, "node") and isinstance(x.node, ast.FunctionDef)]
+                    if grade == "self" and len(cs) == 1:
+                        k = cs[0]
+                if k is None or k is f:
+                    continue
+                kp = [p_ for p_ in k.params if p_ not in ("self", "cls")]
+                given = {kw.arg for kw in c.keywords} | set(kp[:len(c.args)])
+                shared = [p_ for p_ in own if p_ in kp]
+                if not shared:
+                    continue
+                n += 1
+                who = "%s.%s" % (f.cls.name, f.name)
+                miss = [p_ for p_ in shared if p_ not in given and (who, k.name if k.name != "__init__" else "__init__", p_) not in OPTION_NOT_FORWARDED_OK]
+                rep.check(not miss, rid, f.qualname, "option %s not handed on to %s" % (miss, call_name(c) or norm(c.func)), fn_where(f, c), "",
+                          "%s has the parameter(s) %s and calls `%s`, whose signature has the same parameter(s), without passing %s on: the callee runs on its own default whatever the caller was asked for (a per-call case-sensitivity override, a use_tree_weights=False, a descending=True is silently ignored) - every other call of this kind in the repository hands the option on" % (f.qualname, shared, norm(c)[:60], miss))
+    return n
+
+
 def settings_clone_rule(index, rep, rid, modules):
     """A method that builds a new object of its own class from its own settings (two or more constructor arguments taken
     from self) passes ALL the constructor's options: one left out silently falls back to its default in the result."""
@@ -1332,6 +1395,7 @@ def generic_rules(prop, index, rep):
     rep.rule(rid, "argument wiring in the property's modules: an argument named like one of the callee's parameters is passed for that parameter (no swapped positional arguments, no `a=b, b=a` keyword crossings)")
     with rep.section(rid):
         nw = arg_wiring_rule(index, rep, rid, mods)
+        nw += option_handed_on_rule(index, rep, rid, mods)
         nw += option_handed_down_rule(index, rep, rid, mods)
         nw += settings_clone_rule(index, rep, rid, mods)
         rep.ob(rid, "src/dendropy", "%d resolved calls in the property's modules examined" % nw, True)
